@@ -36,9 +36,20 @@ def byte_pool(rnd):
 
 def gen_buffers(rnd, maxlen, nbase, nprefix):
     out = []
-    for _ in range(nbase):
+    for i in range(nbase):
         n = maxlen + rnd.choice([0, 1, 3])
-        base = bytes(byte_pool(rnd) for _ in range(n))
+        if i == 0:
+            base = bytes(byte_pool(rnd) for _ in range(n))
+        elif i == 1:
+            # runs of boundary bytes, so that multi-byte fields reach their extreme values
+            base = b""
+            while len(base) < n:
+                base += bytes([rnd.choice([0xFF, 0xFF, 0x7F, 0x80, 0x00])]) * rnd.choice([1, 2, 3, 4, 7, 8])
+            base = base[:n]
+            if rnd.random() < 0.5:
+                base = bytes(byte_pool(rnd) if rnd.random() < 0.25 else b for b in base)
+        else:
+            base = bytes(byte_pool(rnd) for _ in range(n))
         lens = list(range(n + 1)) if n + 1 <= nprefix else sorted(set([0, 1, n, n - 1, max(0, maxlen)] + rnd.sample(range(n + 1), nprefix - 4)))
         out.append((base, lens))
     return out
